@@ -15,6 +15,23 @@ CLAIMED = {
         note="Trusted: linearity of forward/adjoint on parameter vectors (itself probed), numpy. Classes under recorded "
              "known findings (non-orthonormal expansion geometries; Deconvolution2D even PSF / reflective BC) are excluded and counted.",
         design="3/C07"),
+    "C13": dict(
+        technique="Hypothesis property tests: round-trip / idempotence / batch-vs-column metamorphic relations over generated geometries and grids",
+        text="Generated geometries of every shipped kind (incl. mapped with/without inverse, KL with any number of modes, step "
+             "expansions on rational, float and linspace grids with any number of steps) are checked for fun2par(par2fun(p)) = p, "
+             "projection idempotence, partition of unity of the step indicators with documented interval membership, batch = "
+             "column-wise application, reported shapes = produced shapes, and lossless Samples/CUQIarray conversions. Generated "
+             "search; dimensions <= 12 (grids <= 60 nodes in the thorough tier).",
+        note="Trusted: numpy; tolerance 1e-9 for sine-transform round trips; nodes within 1e-9 of a step boundary may belong to either adjacent step.",
+        design="3/C13"),
+    "C19": dict(
+        technique="Hypothesis property tests against a numpy reference model (incl. operation-sequence histories) + differential test against arviz per variable",
+        text="burnthin, statistics and conversion chains of Samples/JointSamples are compared with direct numpy computation on the "
+             "raw array for generated arrays, burn-in/thinning values incl. boundaries, credibility levels and generated sequences "
+             "of burnthin/funvals/vector/parameters calls interpreted against a numpy model; ESS/R-hat are compared with arviz "
+             "applied to each variable's row in order, on rows with different autocorrelation so that a permutation shows.",
+        note="Trusted: numpy reductions, arviz ess/rhat as reference implementations.",
+        design="3/C19"),
     "C20": dict(
         technique="exhaustive enumeration of the operator family + Hypothesis property tests against dense reference stencils",
         text="Every 1-D (n=2..24) and 2-D (n=2..7) operator for every boundary condition/order/dx is enumerated and compared "
